@@ -25,8 +25,9 @@ func oracleC07(f *sessionFam, w *World, res *Result) []Violation {
 		pt = 20 * time.Second
 	}
 	drainAt := time.Duration(1<<62 - 1)
+	drainSeq := 1 << 30
 	for _, e := range w.evs("", "drain-start") {
-		drainAt = e.T
+		drainAt, drainSeq = e.T, e.Seq
 	}
 	for _, a := range sortedKeys(w.Socks) {
 		conns := w.evs(a, "connection")
@@ -36,10 +37,15 @@ func oracleC07(f *sessionFam, w *World, res *Result) []Violation {
 		v4 := conns[0].N == 4
 		ctx := f.sessCtx(a)
 		var closeEv *Ev
-		if c := w.closesOf(a); len(c) > 0 {
+		if c := w.closesOf(a); len(c) > 0 && c[0].Seq < drainSeq {
+			// (a close during the wind-up of the run - every client vanishes - is the harness's doing: for the
+			// heartbeat the session was open to the end)
 			closeEv = &c[0]
 		}
 		endT := simEnd(w)
+		if endT > drainAt {
+			endT = drainAt
+		}
 		if closeEv != nil {
 			endT = closeEv.T
 		}
